@@ -58,6 +58,11 @@ const verifWalkLimit = 1 << 20
 
 // VerifDump returns the canonical content of the database plus structural invariants.
 func (m *MemDb) VerifDump() *VerifDumpT {
+	if m == nil {
+		// a database that has not been created yet (an implementation may create numbered databases
+		// lazily) holds nothing
+		return &VerifDumpT{}
+	}
 	d := &VerifDumpT{Count: m.db.count, TTLCount: m.ttlKeys.count}
 	type kv struct {
 		k string
